@@ -8,6 +8,7 @@ import OpwVerif.Drv.MiscOps
 import OpwVerif.Drv.MiscOps2
 import OpwVerif.Drv.CollOps
 import OpwVerif.Drv.PlanOps
+import OpwVerif.Drv.FileOps
 open Opw Opw.Proto Opw.Drv
 
 def dispatch (op : String) : Option (RM Res) :=
@@ -33,6 +34,9 @@ def dispatch (op : String) : Option (RM Res) :=
   | "h_rrt" => some opHRrt
   | "rrt" => some opRrt
   | "rrt_cancel" => some opRrtCancel
+  | "yaml" => some opYaml
+  | "urdf" => some opUrdf
+  | "h_name" => some opHName
   | "kws" => some opKws
   | "kwsd" => some opKwsD
   | "c18" => some opC18
